@@ -247,6 +247,15 @@ func (in *Interp) intrinsic(fr *Frame, name string, args []Value, fn *ssa.Functi
 			return r
 		}
 	}
+	if concretizable[name] {
+		for i, a := range args {
+			if r, ok := a.(*Rope); ok {
+				if c, ok := in.concretizeStr(r); ok {
+					args[i] = c
+				}
+			}
+		}
+	}
 	ts := in.ts
 	f64 := func(i int) (float64, *Term) {
 		switch a := args[i].(type) {
@@ -855,6 +864,79 @@ func (in *Interp) hasPrefix(s, prefix Value) Value {
 		}
 	}
 	return boolOrTerm(in.ts.And(append(conj, in.ts.Bool(true))...))
+}
+
+// functions whose symbolic string arguments are case-split into concrete
+// strings when every symbolic byte has a small exact domain (a digit after
+// the lexer accepted it as part of a number, say)
+var concretizable = map[string]bool{
+	"strconv.ParseFloat": true, "strconv.ParseInt": true, "strconv.ParseUint": true, "strconv.Atoi": true, "strconv.Unquote": true,
+	"strings.HasSuffix": true, "strings.ToLower": true, "strings.ToUpper": true, "strings.TrimSpace": true, "strings.Index": true,
+	"strings.Replace": true, "strings.ReplaceAll": true, "strings.TrimPrefix": true, "strings.TrimSuffix": true, "strings.EqualFold": true,
+	"strings.Trim": true, "strings.TrimLeft": true, "strings.TrimRight": true, "strings.Split": true, "strings.Fields": true,
+	"regexp.MatchString": true, "regexp.MustCompile": true, "regexp.Compile": true,
+}
+
+const maxByteSplit = 24
+
+// concretizeStr turns a rope of literal and symbolic bytes into a concrete
+// string by branching on each symbolic byte whose exact domain (interp.go,
+// byteDom) has at most maxByteSplit values. The split is exhaustive over the
+// domain, so nothing is lost; atoms and wide domains are left alone.
+func (in *Interp) concretizeStr(r *Rope) (string, bool) {
+	// first pass: is every symbolic byte splittable?
+	type sym struct {
+		t    *Term
+		vals []int
+	}
+	var syms []sym
+	for _, c := range r.chunks {
+		switch {
+		case c.isLit():
+		case c.b != nil:
+			if c.b.op != "var" || in.entangled[c.b.name] {
+				return "", false
+			}
+			dom := in.byteDom[c.b.name]
+			if dom == nil {
+				return "", false
+			}
+			var vals []int
+			for x := 0; x < 256; x++ {
+				if dom[x/64]&(1<<uint(x%64)) != 0 {
+					vals = append(vals, x)
+				}
+			}
+			if len(vals) == 0 || len(vals) > maxByteSplit {
+				return "", false
+			}
+			syms = append(syms, sym{c.b, vals})
+		default:
+			return "", false
+		}
+	}
+	chosen := map[string]byte{}
+	for _, s := range syms {
+		if _, done := chosen[s.t.name]; done {
+			continue
+		}
+		vals := s.vals
+		k := 0
+		if len(vals) > 1 {
+			t := s.t
+			k = in.branch(len(vals), "", func(k int) *Term { return in.ts.Eq(t, in.ts.BV(8, uint64(vals[k]))) })
+		}
+		chosen[s.t.name] = byte(vals[k])
+	}
+	var sb strings.Builder
+	for _, c := range r.chunks {
+		if c.isLit() {
+			sb.WriteString(c.lit)
+		} else {
+			sb.WriteByte(chosen[c.b.name])
+		}
+	}
+	return sb.String(), true
 }
 
 // symNeedle: a concrete haystack searched for a symbolic byte or rune.
